@@ -169,7 +169,7 @@ func buildV3Table[T comparable, P Object[T]](r *Report, im *Impl[T, P]) v3Table 
 	Iterate(im, dims, v3bg(ver), 16, func(idx int, a spec.Assignment, o *T) {
 		for k := 0; k < 3; k++ {
 			var s float64
-			if p := Safely(func() { s = im.Scores[k].F(o) }); p != nil {
+			if p := Safely(func() { c := *o; s = im.Scores[k].F(&c) }); p != nil {
 				t[idx][k] = v4Bad
 				continue
 			}
@@ -233,10 +233,17 @@ func v3CheckDiff[T comparable, P Object[T]](im *Impl[T, P], t v3Table, a spec.As
 			idxBase += int(a[i]) * v3Strides[i]
 		}
 	}
-	var res [3]float64
+	// the three scores are taken on copies of the object, once in the order Base, Temporal, Environmental and
+	// once in the opposite order: which of them was asked first must not matter (a scoring method that resolves
+	// the effective values into its receiver makes BaseScore depend on the Modified metrics afterwards)
+	var res, rev [3]float64
 	if p := Safely(func() {
+		c1, c2 := *o, *o
 		for i := range res {
-			res[i] = im.Scores[i].F(o)
+			res[i] = im.Scores[i].F(&c1)
+		}
+		for i := len(rev) - 1; i >= 0; i-- {
+			rev[i] = im.Scores[i].F(&c2)
 		}
 	}); p != nil {
 		return tag + "score/panic", "no panic", fmt.Sprint(p)
@@ -249,6 +256,10 @@ func v3CheckDiff[T comparable, P Object[T]](im *Impl[T, P], t v3Table, a spec.As
 		got, ok := score10(res[k])
 		if !ok || int16(got) != want {
 			return tag + im.Scores[k].Name + "/depends-on-representation", fmt.Sprintf("%.1f, the %s of the canonical object with the same %s", float64(want)/10, im.Scores[k].Name, what), fmt.Sprintf("%v", res[k])
+		}
+		got, ok = score10(rev[k])
+		if !ok || int16(got) != want {
+			return tag + im.Scores[k].Name + "/depends-on-representation@after-the-later-scores-were-taken", fmt.Sprintf("%.1f, the %s of the canonical object with the same %s", float64(want)/10, im.Scores[k].Name, what), fmt.Sprintf("%v when called after %s on the same object", rev[k], im.Scores[2].Name)
 		}
 		return "", "", ""
 	}
